@@ -114,11 +114,19 @@ func init() {
 			if c%3 == 0 {
 				o.alpha = append(append([]string{}, alpha...), alphaPlain...)
 			}
+			if c%2 == 1 {
+				o.midRender = []string{"text"}
+			}
 			t := g.buildTable(o)
 			if sizes || g.r.chance(1, 2) {
 				g.assignProps(t, "align", alignVals)
 			}
-			w := g.do("wrap text " + t)
+			var w string
+			if len(g.mid[t]) > 0 {
+				w = g.mid[t][0]
+			} else {
+				w = g.do("wrap text " + t)
+			}
 			var viol, known []string
 			check := func(decorDesc string) {
 				res := g.do("render " + w)
@@ -267,6 +275,9 @@ func init() {
 			if c%2 == 0 {
 				o.alpha = alphaPlain
 			}
+			if c%3 == 0 {
+				o.midRender = []string{"text", "markdown", "csv"}
+			}
 			t := g.buildTable(o)
 			if g.r.chance(1, 3) {
 				g.assignProps(t, "align", alignVals)
@@ -296,6 +307,22 @@ func init() {
 			}
 			for _, s := range g.listStyles() {
 				chk("auto.Render style "+s, g.do("autorender "+t+" "+hx(s)))
+			}
+			// the long-lived wrappers that already rendered while the table was being built
+			for _, w := range g.mid[t] {
+				chk("long-lived wrapper RenderTo", g.do("render "+w))
+				chk("long-lived wrapper Render", g.do("renderstr "+w))
+			}
+			if len(g.mid[t]) > 0 {
+				// widen the table after those renders, then render through the same wrappers again
+				var ids []string
+				for j := 0; j < g.ncols(t)+1; j++ {
+					ids = append(ids, g.strItem("wide"))
+				}
+				g.do("addrowitems " + t + " " + joinC(ids))
+				for _, w := range g.mid[t] {
+					chk("long-lived wrapper RenderTo after widening", g.do("render "+w))
+				}
 			}
 			return viol, nil, true
 		},
@@ -367,46 +394,71 @@ func init() {
 				refs = append(refs, cur)
 			}
 			var viol []string
-			for _, k := range kinds {
-				base := ""
-				cmp := func(what, class, out string) {
-					if class == "PANIC" {
-						viol = append(viol, what+" panicked: "+lastPanic)
-						return
+			kept := map[string]string{} // (format, ref) -> the wrapper used in round 0, reused after the change
+			for round := 0; round < 2; round++ {
+				if round == 1 {
+					// change the table after it has been rendered through every path, then compare again:
+					// a cell added to a row already in the table, a mutated item re-read, an alignment set
+					rows := g.x.tables[idOf(t)].AllRows()
+					if len(rows) > 0 && !rows[len(rows)-1].IsSeparator() {
+						g.do(fmt.Sprintf("rowadd R%d %s", g.x.rowID[rows[len(rows)-1]], g.anyItem(alphaText, 3)))
+					} else {
+						nr := g.do("appendnewrow " + t)
+						g.do("rowadd " + nr + " " + g.strItem("late"))
 					}
-					sig := class + "|" + out
-					if class != "ok" {
-						sig = class // on error RenderTo may have written a prefix while Render returns nothing
-					}
-					if base == "" {
-						base = sig
-					} else if sig != base {
-						viol = append(viol, fmt.Sprintf("format %s: %s differs from the first path", k, what))
+					g.do(fmt.Sprintf("setprop c:%d:0 align %s", idOf(t), r.pick([]string{"a2", "a3"})))
+					if r.chance(1, 2) { // widen the table past every earlier render
+						var ids []string
+						for j := 0; j < g.ncols(t)+1+r.n(2); j++ {
+							ids = append(ids, g.strItem("w"))
+						}
+						g.do("addrowitems " + t + " " + joinC(ids))
 					}
 				}
-				for _, ref := range refs {
-					var w string
-					if ref[0] == 'T' {
-						w = g.do("wrap " + k + " " + ref)
-					} else {
-						w = g.do("rewrap " + k + " " + ref)
+				for _, k := range kinds {
+					base := ""
+					cmp := func(what, class, out string) {
+						if class == "PANIC" {
+							viol = append(viol, what+" panicked: "+lastPanic)
+							return
+						}
+						sig := class + "|" + out
+						if class != "ok" {
+							sig = class // on error RenderTo may have written a prefix while Render returns nothing
+						}
+						if base == "" {
+							base = sig
+						} else if sig != base {
+							viol = append(viol, fmt.Sprintf("format %s: %s differs from the first path", k, what))
+						}
 					}
-					cl, f := parseRes(g.do("render " + w))
-					cmp("method RenderTo via "+ref, cl, f["out"])
-					cl, f = parseRes(g.do("renderstr " + w))
-					cmp("method Render via "+ref, cl, f["str"])
-					res := g.do("prender " + k + " " + ref)
-					cl, f = parseRes(res)
-					cmp("package Render via "+ref, cl, f["str"])
-					cmp("package RenderTo via "+ref, f["res2"], f["out2"])
-					style := map[string]string{"csv": "csv", "json": "JSON", "markdown": "markdown.gfm", "html": "Html", "text": "texttable"}[k]
-					if k == "text" && r.chance(1, 2) {
-						style = "utf8-heavy"
+					for _, ref := range refs {
+						w := kept[k+"/"+ref]
+						if w == "" {
+							if ref[0] == 'T' {
+								w = g.do("wrap " + k + " " + ref)
+							} else {
+								w = g.do("rewrap " + k + " " + ref)
+							}
+							kept[k+"/"+ref] = w
+						}
+						cl, f := parseRes(g.do("render " + w))
+						cmp("method RenderTo via "+ref, cl, f["out"])
+						cl, f = parseRes(g.do("renderstr " + w))
+						cmp("method Render via "+ref, cl, f["str"])
+						res := g.do("prender " + k + " " + ref)
+						cl, f = parseRes(res)
+						cmp("package Render via "+ref, cl, f["str"])
+						cmp("package RenderTo via "+ref, f["res2"], f["out2"])
+						style := map[string]string{"csv": "csv", "json": "JSON", "markdown": "markdown.gfm", "html": "Html", "text": "texttable"}[k]
+						if k == "text" && r.chance(1, 2) {
+							style = "utf8-heavy"
+						}
+						res = g.do("autorender " + ref + " " + hx(style))
+						cl, f = parseRes(res)
+						cmp("auto.Render("+style+") via "+ref, cl, f["str"])
+						cmp("auto.RenderTo("+style+") via "+ref, f["res2"], f["out2"])
 					}
-					res = g.do("autorender " + ref + " " + hx(style))
-					cl, f = parseRes(res)
-					cmp("auto.Render("+style+") via "+ref, cl, f["str"])
-					cmp("auto.RenderTo("+style+") via "+ref, f["res2"], f["out2"])
 				}
 			}
 			return viol, nil, true
